@@ -166,6 +166,25 @@ def run(leg, seed, tier, replay=None):
     n = 900 if tier == "quick" else 20000
     cases = climon.gen_lines("gen-jq", seed + 24, n, dialect="core")
 
+    # wide arrays with tied keys: order-of-ties behaviour (stable sort) and grouping on > 20 elements,
+    # objects with unsorted key order compared under jq's total order
+    rnd = __import__("random").Random(seed * 524287 + 24)
+    tie_progs = ["sort_by(.k)", "group_by(.k)", "unique_by(.k)", "sort_by(.k) | map(.i)", "group_by(.k) | map(map(.i))", "unique_by(.k) | map(.i)",
+                 "[.[] | .k] | sort", "group_by(.k) | map(length)", "sort", "unique | length", "min", "max", "sort_by(.k, .i) | map(.i)",
+                 "map(.k) | unique", "sort_by(.i) | map(.k)", "[.[] | select(.k == 1) | .i]", "map(.o) | sort", "map(.o) | unique", "map(.o) | min, max",
+                 "sort_by(.o) | map(.i)", "[.[0].o < .[1].o, .[0].o == .[1].o]", "group_by(.o) | map(length)"]
+    for _ in range(60 if tier == "quick" else 1200):
+        n = rnd.choice([5, 19, 20, 21, 22, 24, 33, 48, 64])
+        arr = []
+        for i in range(n):
+            ks = rnd.sample(["b", "a", "c"], 3) if rnd.random() < 0.7 else ["a", "b", "c"]
+            o = {k: rnd.randint(0, 2) for k in ks}
+            arr.append({"k": rnd.randint(0, 3), "i": i, "o": o})
+        rnd.shuffle(arr)
+        for p in rnd.sample(tie_progs, 4):
+            cases.append({"prog": p, "input": json.dumps(arr, separators=(",", ":"))})
+            rep.count("family.wide_ties")
+
     def work(c):
         before = rep.counters.get("witness.agree", 0)
         check_one(rep, binary, c["prog"], c["input"])
